@@ -243,8 +243,17 @@ package parse
 //@     invariant lexerOK(l) && l.pos >= old(l.pos) && (r != eof ==> l.pos - l.width >= l.start && l.width >= 1) && (r == eof ==> l.width == 0)
 //@     decreases len(l.input) - l.pos, ite(r == eof, 0, 1)
 
+// C15: everything between {literal} and the first {/literal} is emitted as ONE
+// text token, unfiltered (whitespace-only content included; only an empty
+// literal emits no text).
 //@ func lexLiteral
 //@   like stateFn
+//@   ghost gi int = -2
+//@   at call strings.Index#0 assert[close-tag-searched-from-the-cursor;C15] len(arg0) == len(l.input) - l.pos && l.start == l.pos
+//@   at call strings.Index#0 after set gi = res
+//@   at call (*lexer).emit#1 assert[the-literal's-characters-as-one-text-token;C15] arg1 == itemText && gi > 0 && l.pos == l.start + gi
+//@   at call (*lexer).emit#2 assert[then-the-closing-tag;C15] arg1 == itemLeftDelim && (gi == 0 || l.start == l.pos - ite(l.doubleDelim, 2, 1))
+//@   at call parse.maybeEmitText#* forbid[literal-text-is-never-filtered;C15] false
 //@   loop 0
 //@     invariant lexerOK(l) && l.pos >= old(l.pos) && (ch == eof ==> l.width == 0)
 //@     decreases len(l.input) - l.pos, ite(ch == eof, 0, 1)
